@@ -7,6 +7,7 @@ ID = "C08"
 
 def setup(ctx):
     hooks.RATE = 3
+    H.PROBE_RATE = 0.3
 
 
 QUEUED = ["# c1", "L\tA\t+\tB\t-\t*", "P\tp\tA+,B-\t*", "C\tA\t+\tB\t+\t0\t*", "X\tcustom\trecord", "H\taa:i:1",
